@@ -93,9 +93,21 @@ def draw_run(seed, i, pools, nfiles):
     if kind == 'rr':
         pol.update(p_stall=0.1, max_stall=20)
     alpha = alphabet(k, pools)
-    chains = [[rng.choice(alpha) for _ in range(rng.randint(1, 5))] for _ in range(40)]
+    chains = [[rng.choice(alpha) for _ in range(rng.randint(1, 5))] for _ in range(25)]
+    # longer chains grown by inserting cancelling pairs at random places: nested patterns such as [A, A, B, C, C, B, A]
+    small = rng.sample(alpha, min(len(alpha), rng.randint(2, 4)))
+    for _ in range(25):
+        ch = [rng.choice(small) for _ in range(rng.randint(0, 3))]
+        for _ in range(rng.randint(1, 4)):
+            x = rng.choice(small)
+            pos = rng.randint(0, len(ch))
+            ch[pos:pos] = [x, x]
+        chains.append(ch[:11])
+    pre = []
+    if rng.random() < 0.5:
+        pre = [[rng.random() < 0.5, rng.random() < 0.7] for _ in range(rng.randint(1, 2))]
     return dict(rows=rows, max_param=k, use_sympy=rng.random() < 0.6, bcast_res=rng.random() < 0.7, P=P, seed=rs, policy=pol,
-                eager=rng.choice([0.0, 0.5, 1.0]), root_copy=rng.random() < 0.25, chains=chains, run_seed=rs, file_seed=fseed)
+                eager=rng.choice([0.0, 0.5, 1.0]), root_copy=rng.random() < 0.25, chains=chains, run_seed=rs, file_seed=fseed, pre_calls=pre)
 
 
 def main(tier, seed, budget):
